@@ -14,6 +14,10 @@ NA = {
 }
 
 CHECKS = {
+ "C10": dict(engine="SEQ", category="exploration", design="§4 C10",
+   technique="deterministic simulation of map-iteration order: instrumented map ranges iterate in simulator-chosen order, all n! orders of the path-parameter map enumerated per generated input; reference URL model on the same runs",
+   text="Go randomises the iteration order of the three maps buildHTTP walks; unit tests see one order per process. Here the instrumented ranges take their order from the simulator: for each tape-generated (base path, pattern, value map, query sets, scheme lists) CreateHttpRequest runs once per permutation of the path-parameter map (all n! for n≤4) and the URLs must be identical to one another and equal to a reference model (simultaneous PathEscape substitution into path.Join(base,pattern), trailing slash kept, query precedence caller>pattern>base, https when offered among several). The order clause is the simulation target; the reference-model clauses are seeded input sampling and are stated as such.",
+   note="Static path text restricted to [a-z0-9._-]; trailing-slash clause not judged for the pattern \"/\"; one known finding (empty value in the leading segment under base path \"/\") is recorded in known_findings.json."),
  "C11": dict(engine="K1", category="exploration", design="§4 C11",
    technique="deterministic simulation: synctest bubble + tape-driven scheduler deciding the relative progress of multipart writer goroutine, caller (GetBody) and transport over scripted upload sources; received bytes parsed and compared part for part",
    text="One Submit per run in a synctest bubble; the tape draws the payload (every kind, several values/files per field, awkward names, contents around the 512-byte sniffing window, declared type or not), the chunking of every upload source (incl. first read shorter than the window, zero-length reads, data+EOF), how often the auth writer calls GetBody, the map-iteration order of fields and files, and the schedule of source reads vs transport pulls. The bytes the simulated transport received are parsed with mime/multipart / url.ParseQuery or compared with an independent producer call and must equal the supplied payload (multiset of parts: field name, base file name, full content, declared-or-sniffed part type); every GetBody result must equal the bytes sent. Seeded sampling, not proof.",
